@@ -17,7 +17,8 @@ LENSES = {
     "thorough": [("core_pointwise", None), ("core_reduce", None), ("core_index", None), ("core_stackcat", None),
                  ("subs_tensor", None), ("subs_chain", None), ("binder_names", 40000), ("mixed_contraction", None), ("semiring_addmul", 30000),
                  ("semiring_logaddexp", 30000), ("semiring_maxadd", 20000), ("semiring_orand", 20000),
-                 ("gauss_pointwise", None), ("delta_ops", 40000)],
+                 ("gauss_pointwise", None), ("delta_ops", 40000), ("negred", None), ("core_moreops", None),
+                 ("core_intops", None), ("delta_integ", 20000)],
 }
 
 
@@ -98,7 +99,8 @@ def run(tier):
     jr, n_ok, n_bad, n_undef = judge_events(
         out, uniq, "C02", lambda e: "%s|%s%s" % (e["rule"], replay.term_sig(e["lhs"], 1),
                                                  "|nonunit_delta" if nonunit_delta(e["lhs"]) else "")
-                          + ("|reduces_absent_var" if reduces_absent_var(e["lhs"]) else ""))
+                          + ("|reduces_absent_var" if reduces_absent_var(e["lhs"]) else ""),
+        timeout=300 if tier == "quick" else 2400)
     rules = Counter(e["rule"] for e in uniq)
     out.coverage = {
         "states": rp.states + jr.states,
